@@ -102,7 +102,7 @@ func (e *FieldExpression) Evaluate(ctx *Context, input system.Collection) (syste
 			return nil, e.errField(message)
 		}
 
-		message, err := e.unpackAny(message)
+		message, err := e.unpackAny(ctx, message)
 		if err != nil {
 			return nil, err
 		}
@@ -178,7 +178,7 @@ func (e *FieldExpression) Evaluate(ctx *Context, input system.Collection) (syste
 		}
 
 		unwrap := func(obj protoreflect.ProtoMessage) (protoreflect.ProtoMessage, error) {
-			obj, err := e.unpackAny(obj)
+			obj, err := e.unpackAny(ctx, obj)
 			if err != nil {
 				return nil, err
 			}
@@ -297,12 +297,21 @@ func (e *FieldExpression) unwrapOneof(obj proto.Message) proto.Message {
 	return obj
 }
 
-func (e *FieldExpression) unpackAny(obj protoreflect.ProtoMessage) (protoreflect.ProtoMessage, error) {
+func (e *FieldExpression) unpackAny(ctx *Context, obj protoreflect.ProtoMessage) (protoreflect.ProtoMessage, error) {
 	if anyMsg, ok := obj.(*anypb.Any); ok {
+		// unpack each Any once per evaluation, and remember where the copy came from
+		if ctx != nil && ctx.Contained != nil {
+			if cr, ok := ctx.Contained[anyMsg]; ok {
+				return cr, nil
+			}
+		}
 		cr := &bcrpb.ContainedResource{}
 		err := anyMsg.UnmarshalTo(cr)
 		if err != nil {
 			return nil, err
+		}
+		if ctx != nil && ctx.Contained != nil {
+			ctx.Contained[anyMsg] = cr
 		}
 		return cr, nil
 	}
